@@ -221,7 +221,9 @@ pub fn scenarios(tier: Tier) -> Vec<Scenario> {
     let mut v = Vec::new();
     let mut add = |p: P, bound: u32| {
         let name = format!("{:?}", p);
-        v.push(Scenario::new(name, sched_cfg(), bound, move || body(&p)));
+        let mut cfg = sched_cfg();
+        cfg.post_points = true;
+        v.push(Scenario::new(name, cfg, bound, move || body(&p)));
     };
     use Kind::*;
     if tier.is_quick() {
